@@ -402,6 +402,12 @@ func (cn *c12Node) probe(res *vfResult, step int, cfg c12Cfg, what string) {
 		res.violate("C12/event-loop-stalled", step, "after %s: ListPeers did not answer within 1 s", what)
 		return
 	}
+	// a flood may legitimately be throttled (validation queue of 32, subscription buffer of 32): let the pipeline drain and
+	// empty the subscription before the honest message is sent, so that only a node that stopped working loses it
+	synctest.Wait()
+	for len(cn.sub.ch) > 0 {
+		<-cn.sub.ch
+	}
 	cn.seq++
 	data := fmt.Sprintf("probe-%d", cn.seq)
 	pm := vfSignedMsg(vfPeer(8), vfTopic(0), cn.seq+1<<40, []byte(data))
